@@ -1195,6 +1195,6 @@ func params(exp eval.Expression) *expr.MappedAttributeExpr {
 // cookieAttribute initialize the current attribute metadata with the details of
 // a HTTP cookie attribute for use by the HTTP code generator.
 func cookieAttribute(name, value string) {
-	c := eval.Current().(*expr.HTTPResponseExpr).Cookies
+	c := cookies(eval.Current())
 	c.AddMeta("cookie:"+name, value)
 }
